@@ -21,7 +21,7 @@ from mysql_mimic.packets import (
     parse_com_field_list,
     make_column_definition_41,
 )
-from mysql_mimic.prepared import PreparedStatement, REGEX_PARAM
+from mysql_mimic.prepared import PreparedStatement, find_params
 from mysql_mimic.results import ensure_result_set, ResultSet
 from mysql_mimic import types, packets, context
 from mysql_mimic.schema import com_field_list_to_show_statement
@@ -440,7 +440,7 @@ class Connection:
         sql = self.client_charset.decode(data)
 
         stmt_id = next(self.prepared_stmt_seq)
-        num_params = len(REGEX_PARAM.findall(sql))
+        num_params = len(find_params(sql))
 
         stmt = PreparedStatement(
             stmt_id=stmt_id,
